@@ -312,7 +312,7 @@ func (v *Verifier) solveAll(obls []*Obligation, workDir string, timeoutS int, jo
 			o.File = file
 			to := timeoutS
 			if o.Canary {
-				to = 2
+				to = 1
 			}
 			if o.Known {
 				to = 3
@@ -334,7 +334,11 @@ func (v *Verifier) solveAll(obls []*Obligation, workDir string, timeoutS int, jo
 				rctx, rcancel := context.WithCancel(context.Background())
 				defer rcancel()
 				go func() {
-					b, a, d := portfolioCtx(rctx, file, to, sem, solvers)
+					which := solvers
+					if o.Canary {
+						which = solvers[:1] // vacuity canaries: one solver, short timeout
+					}
+					b, a, d := portfolioCtx(rctx, file, to, sem, which)
 					ch <- pres{b, a, d, false}
 				}()
 				n := 1
